@@ -56,11 +56,68 @@ SHAPES = {
 }
 
 
+class _Normalise(ast.NodeTransformer):
+    """spelling differences that cannot change what a statement does: the names of local variables (renamed in
+    order of first binding), `enumerate(x, 0)` / `enumerate(x, start=0)` for `enumerate(x)`, an annotated
+    assignment for a plain one, `t = t + e` / `t = t - e` for `t += e` / `t -= e` on the SAME target text"""
+
+    def __init__(self, args: list[str]):
+        self.keep = set(args)
+        self.names: dict[str, str] = {}
+
+    def bind(self, node):
+        for n in ast.walk(node):
+            if isinstance(n, ast.Name) and isinstance(n.ctx, ast.Store) and n.id not in self.keep and n.id not in self.names:
+                self.names[n.id] = f"v{len(self.names)}"
+
+    def visit_Name(self, node):
+        if node.id in self.names:
+            return ast.copy_location(ast.Name(id=self.names[node.id], ctx=node.ctx), node)
+        return node
+
+    def visit_Call(self, node):
+        self.generic_visit(node)
+        if isinstance(node.func, ast.Name) and node.func.id == "enumerate":
+            if len(node.args) == 2 and isinstance(node.args[1], ast.Constant) and node.args[1].value == 0 \
+                    and type(node.args[1].value) is int and not node.keywords:
+                node.args = node.args[:1]
+            elif len(node.args) == 1 and len(node.keywords) == 1 and node.keywords[0].arg == "start" and \
+                    isinstance(node.keywords[0].value, ast.Constant) and node.keywords[0].value.value == 0 and \
+                    type(node.keywords[0].value.value) is int:
+                node.keywords = []
+        return node
+
+    def visit_AnnAssign(self, node):
+        self.generic_visit(node)
+        if node.value is not None and node.simple:
+            return ast.copy_location(ast.Assign(targets=[node.target], value=node.value), node)
+        return node
+
+    def visit_Assign(self, node):
+        self.generic_visit(node)
+        if len(node.targets) == 1 and isinstance(node.value, ast.BinOp) and isinstance(node.value.op, (ast.Add, ast.Sub)) \
+                and isinstance(node.targets[0], (ast.Name, ast.Attribute)) \
+                and ast.unparse(node.value.left) == ast.unparse(node.targets[0]):
+            return ast.copy_location(ast.AugAssign(target=node.targets[0], op=node.value.op, value=node.value.right), node)
+        return node
+
+
+def normalised(stmts: list[ast.stmt], args: list[str]) -> list[str]:
+    nz = _Normalise(args)
+    for s in stmts:                       # bind in textual order, then rename everywhere
+        nz.bind(s)
+    return [ast.unparse(ast.fix_missing_locations(nz.visit(s))) for s in stmts]
+
+
 def statements(fn: ast.FunctionDef) -> list[str]:
     body = list(fn.body)
     if body and isinstance(body[0], ast.Expr) and isinstance(body[0].value, ast.Constant) and isinstance(body[0].value.value, str):
         body = body[1:]
-    return [ast.unparse(s) for s in body]
+    return normalised(body, [a.arg for a in fn.args.args])
+
+
+def shape(texts: list[str], args: list[str]) -> list[str]:
+    return normalised(ast.parse("\n".join(texts)).body, args)
 
 
 def variant_of(tree, name: str) -> str:
@@ -74,10 +131,10 @@ def variant_of(tree, name: str) -> str:
         raise Unavailable(f"{name}: decorated")
     got = statements(fn)
     for v, want in variants.items():
-        if got == want:
+        if got == shape(want, args):
             return v
     # say where the first difference is
-    want = next(iter(variants.values()))
+    want = shape(next(iter(variants.values())), args)
     for k, (a, b) in enumerate(zip(got, want)):
         if a != b:
             raise Unavailable(f"{name}: statement {k + 1} is `{a[:70]}`, the model was transcribed from `{b[:70]}`")
